@@ -198,11 +198,55 @@ def search(item, seed):
         why = check(case)
         if why:
             return dict(function="get_object_results", input=case, observed=why)
+    # the same accounting through the library's own caller (the manager filters both sides, then pairs them): frames without ground truth, frames whose
+    # ground truths are all filtered out, frames without estimates
+    for case in manager_cases(rnd):
+        try:
+            why = check_manager(case)
+        except Exception as ex:
+            why = f"add_frame_result raised {type(ex).__name__}: {ex}"
+        if why:
+            return dict(function="manager", input=case, observed=why)
+    return None
+
+
+def manager_cases(rnd):
+    pts = [-6.0, -2.0, 1.0, 4.0, 9.0]
+    labs = ["car", "pedestrian", "bicycle"]
+    mk = lambda i, lab, u: dict(label=lab, x=rnd.choice(pts) + 0.01 * i, y=rnd.choice(pts), score=0.5 + 0.05 * i, uuid=u + str(i), pts=5)
+    out = []
+    for ne, ng, foreign in ((1, 0, 0), (3, 0, 0), (2, 0, 2), (0, 2, 0), (0, 0, 0), (2, 2, 0), (3, 1, 1)):
+        est = [mk(i, rnd.choice(labs), "e") for i in range(ne)]
+        gt = [mk(i, rnd.choice(labs), "g") for i in range(ng)] + [mk(10 + i, "animal", "x") for i in range(foreign)]     # 'animal' converts to unknown: not a target label here
+        out.append(dict(est=est, gt=gt))
+    return out
+
+
+def check_manager(case):
+    """every estimate the manager's filter keeps (all of them here: target labels, 100 m ranges) is in exactly one result; every kept ground truth in at most one"""
+    import C13 as mg
+    from perception_eval.common.dataset import FrameGroundTruth
+    targets = ["car", "pedestrian", "bicycle"]
+    mgr, ev = mg.manager("detection", targets)
+    cof, pfc = mg.crit_cfg(ev, targets, 50.0)
+    est = [build.obj3d(d) for d in case["est"]]
+    gts = [build.obj3d(d) for d in case["gt"]]
+    frame = FrameGroundTruth(0, "0", gts, transforms=build.ego_matrix(None))
+    fr = mgr.add_frame_result(0, frame, est, cof, pfc)
+    for e in est:
+        n = sum(1 for r in fr.object_results if r.estimated_object is e)
+        if n != 1:
+            return f"estimate {e.uuid} ({e.semantic_label.label.value}) is in {n} results of the frame ({len(est)} estimates, {len(gts)} ground truths loaded, {len(fr.object_results)} results)"
+    if len(fr.object_results) != len(est):
+        return f"{len(est)} estimates, {len(fr.object_results)} results"
+    for g in gts:
+        if sum(1 for r in fr.object_results if r.ground_truth_object is g) > 1:
+            return f"ground truth {g.uuid} is in more than one result"
     return None
 
 
 def replay(payload):
-    why = check(payload["input"])
+    why = check_manager(payload["input"]) if payload.get("function") == "manager" else check(payload["input"])
     return (why is None, why or "ok")
 
 
